@@ -20,20 +20,7 @@ def run(res, pool, tier, seed):
                  constants=dict(GRID="<- GridDef", SEED=seed % 1000, NSHARD=4 if tier == "quick" else 1))]
     engine.run_jobs(res, jobs, pool)
     # TLAPS: the identities for all integers
-    spec = os.path.join(tlcio.SPEC, "Proofs_G3DVec.tla")
-    shutil.rmtree(os.path.join(tlcio.SPEC, ".tlacache"), ignore_errors=True)
-    t0 = time.time()
-    r = subprocess.run(["timeout", "600", "tlapm", "--cleanfp", "--toolbox", "0", "0", spec], capture_output=True, text=True, cwd=tlcio.SPEC)
-    shutil.rmtree(os.path.join(tlcio.SPEC, ".tlacache"), ignore_errors=True)
-    txt = r.stdout + r.stderr
-    import re
-    mm = re.search(r"All (\d+) obligations? proved", txt)
-    total = int(mm.group(1)) if mm else 0
-    failed = txt.count("@!!status:failed")
-    res.extra["tlaps"] = {"obligations": total, "proved": total if mm else 0, "failed": failed, "wall_s": round(time.time() - t0, 1),
-                          "theorems": ["CrossOrthogonalA", "CrossOrthogonalB", "CrossAntiCommutes", "Lagrange", "DotSymmetricBilinear"]}
-    if r.returncode != 0 or not mm or failed:
-        raise tlcio.MachineryError("tlapm did not prove all obligations: %s" % txt[-800:])
+    res.extra["tlaps"] = tlcio.run_tlaps("Proofs_G3DVec.tla", ["CrossOrthogonalA", "CrossOrthogonalB", "CrossAntiCommutes", "Lagrange", "DotSymmetricBilinear"])
 
 
 # ------------------------------------------------------------------------------------------
